@@ -371,3 +371,49 @@ Example C05_es_area_value_example :
   Qc_eqb (es_area_value (fun _ l => qc_of_Z (sumZ l)) (mkCP 2 0 1 4 1) (update_area x))
          (es_area_value (fun _ l => qc_of_Z (sumZ l)) (mkCP 2 0 1 3 1) x) = true.
 Proof. vm_compute. repeat split. Qed.
+
+(* the same invariance in ONE dimension (the case the C07 theorem local_combi_v0_perm, d >= 2, leaves out): the standard scheme is the
+   single grid [lmax], the local combination of an area is the single grid [lmax - c]; needs lmin >= 0 (then the model's second-largest
+   level test, which the repaired code skips in one dimension, is never taken) *)
+Theorem C05_es_v0_area_value_invariant_dim1 : forall (F : box -> lv -> Qc) lmin lmax base (x : area),
+  (0 <= lmin)%Z -> (0 <= a_coarse x <= lmax - lmin)%Z ->
+  es_area_value F (mkCP 1 0 lmin (lmax + 1) base) (update_area x) = es_area_value F (mkCP 1 0 lmin lmax base) x.
+Proof. exact es_v0_area_value_invariant_dim1. Qed.
+Print Assumptions C05_es_v0_area_value_invariant_dim1.
+Example C05_es_dim1_example :
+  local_combi (mkCP 1 0 1 4 1) 2 = [([1%Z], 1%Z)] /\ local_combi (mkCP 1 0 1 5 1) 3 = [([1%Z], 1%Z)].
+Proof. split; reflexivity. Qed.
+
+(* ---- the C07 step function itself (ExtendSplit.do_refinement and the selection loop of refine_round): every object keeps its position,
+   its box and its level lmax - coarsening - an extend that raises lmax applies update_area to ALL objects - and therefore
+   (version 0, d >= 2) its VALUE under the current scheme, whatever is refined, split or extended around it *)
+Theorem C05_es_do_refinement_keeps_levels : forall st i decs, KeepsLevels st (fst (do_refinement st i decs)).
+Proof. exact do_refinement_keeps_levels. Qed.
+Theorem C05_es_refine_loop_keeps_levels : forall decs tol idx st,
+  KeepsLevels st (fst (fold_left (fun (acc : state * list (box * (bool * list nat))) i =>
+                 let '(s, lg) := acc in
+                 match nth_error (st_objs s) i with
+                 | Some x => if Qc_leb tol (a_benefit x) then let '(s', l') := do_refinement s i decs in (s', lg ++ l') else (s, lg)
+                 | None => (s, lg)
+                 end) idx (st, []))).
+Proof. exact refine_loop_keeps_levels. Qed.
+Theorem C05_es_refine_loop_keeps_values : forall (F : box -> lv -> Qc) n st st',
+  KeepsLevels st st' -> st_dim st = S (S n) -> st_version st = 0%Z ->
+  forall j y, nth_error (st_objs st) j = Some y -> in_bounds st y ->
+  exists y', nth_error (st_objs st') j = Some y' /\ es_area_value F (st_cp st') y' = es_area_value F (st_cp st) y.
+Proof. exact refine_loop_keeps_values. Qed.
+Print Assumptions C05_es_do_refinement_keeps_levels.
+Print Assumptions C05_es_refine_loop_keeps_levels.
+Print Assumptions C05_es_refine_loop_keeps_values.
+(* non-vacuity: initial state (d = 2, lmin 1, lmax 2, extend at once), object 0 is extended: lmax becomes 3, object 1 gets coarsening 1
+   and keeps its value *)
+Example C05_es_do_refinement_example :
+  let st0 := init_state 2 0 0 1 2 1 false false [0%Qc; 0%Qc] [1%Qc; 1%Qc] in
+  let st1 := fst (do_refinement st0 0 []) in
+  let F := fun (_ : box) (l : lv) => qc_of_Z (sumZ l + 1) in
+  st_lmax st1 = 3%Z /\ map a_coarse (st_objs st1) = [1; 1; 1; 1; 0]%Z /\
+  match nth_error (st_objs st0) 1, nth_error (st_objs st1) 1 with
+  | Some y, Some y' => Qc_eqb (es_area_value F (st_cp st1) y') (es_area_value F (st_cp st0) y) = true /\ in_bounds st0 y
+  | _, _ => False
+  end.
+Proof. vm_compute. repeat split; intro H; discriminate H. Qed.
